@@ -98,7 +98,7 @@ def conversation(requests, provider):
     return [r['endpoint'] for r in requests if r.get('provider') == provider and r['endpoint'] != 'token']
 
 
-def run_upfile(ctx, stage, provider, sizes, seed, ending, max_request_size, faults, preset, timeout=120):
+def run_upfile(ctx, stage, provider, sizes, seed, ending, max_request_size, faults, preset, timeout=30):
     """faults: list of (conversation index | 'token', kind).  -> dict(real observation)"""
     stage.reset(provider, preset)
     seq0 = stage.emu.seq()
